@@ -155,6 +155,37 @@ type verifC42 struct {
 	answered    *Produced
 	jobs        int
 	all         []*PID
+	chunkMode   bool
+	frameLens   []int
+}
+
+// verifJobPayload builds the payload of job k. Without chunking it is Int64Value(payloadOf k); with chunking it is
+// a StringValue "j<k>|padding" padded so that its ENCODED frame is exactly the length the case asks for.
+func (h *verifC42) verifJobPayload(k int) (any, error) {
+	if !h.chunkMode {
+		return wrapperspb.Int64(verifPayloadOf(k)), nil
+	}
+	want := 1
+	if len(h.frameLens) > 0 {
+		want = h.frameLens[(k-1)%len(h.frameLens)]
+	}
+	prefix := "j" + strconv.Itoa(k) + "|"
+	pad := 0
+	for try := 0; try < 6; try++ {
+		msg := wrapperspb.String(prefix + strings.Repeat("x", pad))
+		frame, err := h.sys.getRemoting().Serializer(msg).Serialize(msg)
+		if err != nil {
+			return nil, err
+		}
+		if len(frame) == want {
+			return msg, nil
+		}
+		pad += want - len(frame)
+		if pad < 0 {
+			return nil, fmt.Errorf("frame length %d is below the minimum %d", want, len(frame)-(pad-(want-len(frame))))
+		}
+	}
+	return nil, fmt.Errorf("cannot realise frame length %d", want)
 }
 
 func verifPayloadOf(k int) int64 { return int64(1000 + 7*k) }
@@ -177,7 +208,7 @@ func (h *verifC42) spawnStandIn(role ReliableControllerRole, endpointName string
 	return pid, nil
 }
 
-func verifC42Setup(window int, deliveryConfirmation bool) (*verifC42, error) {
+func verifC42Setup(window int, deliveryConfirmation bool, maxChunk int) (*verifC42, error) {
 	sys, err := verifSystem()
 	if err != nil {
 		return nil, err
@@ -204,6 +235,7 @@ func verifC42Setup(window int, deliveryConfirmation bool) (*verifC42, error) {
 		retryInterval:        time.Hour,
 		deliveryConfirmation: deliveryConfirmation,
 		queueRetry:           &reliableQueueRetryConfig{maxAttempts: 1, initialBackoff: time.Millisecond},
+		maxChunkBytes:        uint32(maxChunk),
 	}
 	h.pc = newProducerController(h.prod, pcfg, nil)
 	if h.pcPID, err = sys.Spawn(h.ctx, "vpc-"+k, h.pc); err != nil {
@@ -278,17 +310,33 @@ func (h *verifC42) payloadOfFrame(frame []byte) int64 {
 	if err != nil {
 		return -1
 	}
-	if v, ok := msg.(*wrapperspb.Int64Value); ok {
-		return v.GetValue()
-	}
-	return -2
+	return verifPayloadOfAny(msg)
 }
 
+// verifPayloadOfAny decodes the two payload shapes the harness produces: Int64Value(payloadOf k) and, for
+// flows with chunking, StringValue("j<k>|padding") standing for payloadOf k.
 func verifPayloadOfAny(p any) int64 {
 	if v, ok := p.(*wrapperspb.Int64Value); ok {
 		return v.GetValue()
 	}
+	if v, ok := p.(*wrapperspb.StringValue); ok {
+		s := v.GetValue()
+		if i := strings.IndexByte(s, '|'); i > 1 && s[0] == 'j' {
+			if k, err := strconv.Atoi(s[1:i]); err == nil {
+				return verifPayloadOf(k)
+			}
+		}
+		return -3
+	}
 	return -2
+}
+
+// verifShowEntry prints one stored / buffered entry: whole `id:seq:value`, chunk `id:seq:c<len>/<first><last>`.
+func (h *verifC42) verifShowEntry(id string, seq int64, payload []byte, chunked, first, last bool) string {
+	if chunked {
+		return fmt.Sprintf("%d:%d:c%d/%d%d", verifMsgID(id), seq, len(payload), verifB(first), verifB(last))
+	}
+	return fmt.Sprintf("%d:%d:%d", verifMsgID(id), seq, h.payloadOfFrame(payload))
 }
 
 func (h *verifC42) show(m any) string {
@@ -303,7 +351,7 @@ func (h *verifC42) show(m any) string {
 		return fmt.Sprintf("A(%d,%d,%d)", h.sess(x.SessionID()), x.NextSeq(), h.nonces.of(x.Nonce()))
 	case *commands.SequencedMessage:
 		if x.Chunked() {
-			return fmt.Sprintf("SC(%d,%d,%d)", h.sess(x.SessionID()), verifMsgID(x.MessageID()), x.Seq())
+			return fmt.Sprintf("SC(%d,%d,%d,%d,%d,%d)", h.sess(x.SessionID()), verifMsgID(x.MessageID()), x.Seq(), x.PayloadSize(), verifB(x.FirstChunk()), verifB(x.LastChunk()))
 		}
 		return fmt.Sprintf("S(%d,%d,%d,%d)", h.sess(x.SessionID()), verifMsgID(x.MessageID()), x.Seq(), h.payloadOfFrame(x.Payload()))
 	case *RequestNext:
@@ -331,7 +379,7 @@ func (h *verifC42) digestP() string {
 	x := h.pc
 	unc := make([]string, len(x.unconfirmed))
 	for i, u := range x.unconfirmed {
-		unc[i] = fmt.Sprintf("%d:%d:%d", verifMsgID(u.MessageID()), u.Seq(), h.payloadOfFrame(u.Payload().rawBytes()))
+		unc[i] = h.verifShowEntry(u.id(), u.Seq(), u.Payload().rawBytes(), u.chunk.chunked, u.chunk.first, u.chunk.last)
 	}
 	st := "-"
 	if x.storedMessage != nil {
@@ -341,9 +389,9 @@ func (h *verifC42) digestP() string {
 	if len(x.pendingPayload.rawBytes()) > 0 {
 		pend = h.payloadOfFrame(x.pendingPayload.rawBytes())
 	}
-	return fmt.Sprintf("P{cur=%d conf=%d pers=%d unc=[%s] reg=%d n=%d dem=%d span=%d hs=%d tok=%d pid=%d pseq=%d ppl=%d st=%s lt=%d lid=%d f=%d}",
+	return fmt.Sprintf("P{cur=%d conf=%d pers=%d unc=[%s] reg=%d n=%d dem=%d span=%d hs=%d tok=%d pid=%d pseq=%d ppl=%d st=%s pch=%d lt=%d lid=%d f=%d}",
 		x.currentSeq, x.confirmedSeq, x.persistedConfirmedSeq, strings.Join(unc, ","), verifB(x.consumerController != nil), h.nonces.of(x.registrationNonce),
-		x.demandUpTo, x.windowSpan, x.handshake, h.tokens.of(x.token), verifMsgID(x.pendingMessageID), x.pendingSeq, pend, st,
+		x.demandUpTo, x.windowSpan, x.handshake, h.tokens.of(x.token), verifMsgID(x.pendingMessageID), x.pendingSeq, pend, st, len(x.pendingChunks),
 		h.tokens.of(x.lastCompletedToken), verifMsgID(x.lastCompletedMessageID), verifB(x.failed))
 }
 
@@ -351,15 +399,15 @@ func (h *verifC42) digestC() string {
 	x := h.cc
 	buf := make([]string, len(x.buffer))
 	for i, b := range x.buffer {
-		buf[i] = fmt.Sprintf("%d:%d:%d", verifMsgID(b.MessageID()), b.Seq(), h.payloadOfFrame(b.Payload()))
+		buf[i] = h.verifShowEntry(b.MessageID(), b.Seq(), b.Payload(), b.Chunked(), b.FirstChunk(), b.LastChunk())
 	}
 	inf := "-"
 	if x.inFlight != nil {
 		inf = h.show(x.inFlight)
 	}
-	return fmt.Sprintf("C{w=%d hp=%d s=%d n=%d exp=%d conf=%d upto=%d buf=[%s] inf=%s saw=%d gap=%d f=%d}",
+	return fmt.Sprintf("C{w=%d hp=%d s=%d n=%d exp=%d conf=%d upto=%d buf=[%s] inf=%s rl=%d saw=%d gap=%d f=%d}",
 		x.window, verifB(x.producerController != nil), h.sess(x.sessionID), h.nonces.of(x.registrationNonce), x.expectedSeq, x.confirmedSeq,
-		x.requestUpToSeq, strings.Join(buf, ","), inf, verifB(x.sawValidTraffic), verifB(!x.lastGapRequest.IsZero()), verifB(x.failed))
+		x.requestUpToSeq, strings.Join(buf, ","), inf, x.runLastSeq, verifB(x.sawValidTraffic), verifB(!x.lastGapRequest.IsZero()), verifB(x.failed))
 }
 
 // toP / toC run one real handler on the harness goroutine. A controller that terminated itself
@@ -448,6 +496,29 @@ func (h *verifC42) op(op string) string {
 		}
 		h.toP(h.lc, m)
 		return h.trace('P')
+	case h.chunkMode && (strings.HasPrefix(op, "fw") || strings.HasPrefix(op, "ff")):
+		// forged SequencedMessage under the current session (differential only; see Driver/C42c.lean)
+		seq := verifIdx(op[2:])
+		if seq < 1 {
+			return "bad-op"
+		}
+		var m *commands.SequencedMessage
+		var err error
+		if op[1] == 'w' {
+			msg := wrapperspb.String("j99|")
+			frame, serr := h.sys.getRemoting().Serializer(msg).Serialize(msg)
+			if serr != nil {
+				return "err-forge"
+			}
+			m, err = commands.NewSequencedMessage(h.pc.sessionID, "m99", int64(seq), frame)
+		} else {
+			m, err = commands.NewChunkedSequencedMessage(h.pc.sessionID, "m98", int64(seq), []byte("zz"), true, false)
+		}
+		if err != nil {
+			return "err-forge"
+		}
+		h.toC(h.lp, m)
+		return h.trace('C')
 	case op == "tp":
 		h.toP(h.sys.NoSender(), &producerControllerTick{generation: h.pc.generation})
 		return h.trace('P')
@@ -464,7 +535,11 @@ func (h *verifC42) op(op string) string {
 		case *RequestNext:
 			if h.answered == nil || h.answeredTok != x.Token() {
 				h.jobs++
-				p, err := NewProduced(x, "m"+strconv.Itoa(h.jobs), wrapperspb.Int64(verifPayloadOf(h.jobs)))
+				payload, perr := h.verifJobPayload(h.jobs)
+				if perr != nil {
+					return "err-payload: " + perr.Error()
+				}
+				p, err := NewProduced(x, "m"+strconv.Itoa(h.jobs), payload)
 				if err != nil {
 					return "err-produced"
 				}
@@ -522,15 +597,34 @@ func VerifC42Run(line string) string {
 	if err != nil || w < 1 || w > MaxReliableFlowControlWindow {
 		return "bad-case"
 	}
-	h, err := verifC42Setup(w, f[1] == "1")
+	// optional chunk configuration: m<maxChunkBytes> L<len,len,...>
+	ops := f[2:]
+	maxChunk, chunkMode := 0, false
+	var lens []int
+	if len(ops) >= 2 && strings.HasPrefix(ops[0], "m") && strings.HasPrefix(ops[1], "L") {
+		mc, err1 := strconv.Atoi(ops[0][1:])
+		ok := err1 == nil
+		if ops[1] != "L" && ops[1] != "L-" {
+			for _, x := range strings.Split(ops[1][1:], ",") {
+				n, err2 := strconv.Atoi(x)
+				ok = ok && err2 == nil
+				lens = append(lens, n)
+			}
+		}
+		if ok {
+			maxChunk, chunkMode, ops = mc, true, ops[2:]
+		}
+	}
+	h, err := verifC42Setup(w, f[1] == "1", maxChunk)
 	if h != nil {
 		defer h.teardown()
 	}
 	if err != nil {
 		return "setup-error: " + err.Error()
 	}
+	h.chunkMode, h.frameLens = chunkMode, lens
 	out := []string{"init cp:" + h.showAll(h.netCP) + " " + h.digestP() + " " + h.digestC()}
-	for _, op := range f[2:] {
+	for _, op := range ops {
 		out = append(out, h.op(op))
 	}
 	return strings.Join(out, ";")
